@@ -244,7 +244,7 @@ func cmdAdmit(fs *flag.FlagSet) {
 	seed := fs.Int64("seed", 1, "seed")
 	fs.Parse(os.Args[2:])
 	hangFile = *out + ".hang"
-	startWatchdog(10 * time.Second)
+	startWatchdog(60 * time.Second)
 	f, err := os.Open(*casesPath)
 	if err != nil {
 		fatal("open cases: %v", err)
